@@ -481,18 +481,19 @@ Qed.
 Theorem compile_expand : forall e,
   list_settings e = false ->
   (forall fl, user_refs_ok e (defined (expand_with e fl)) = true) ->
+  (forall fl, trees_ok e (defined (expand_with e fl)) = true) ->
   fields_ok e = true -> query_params_ok e = true -> command_params_ok e = true -> convert e = expand e.
 Proof.
-  intros e Hls HU Hok Hq Hc. unfold convert, expand. rewrite Hls.
+  intros e Hls HU HT Hok Hq Hc. unfold convert, expand. rewrite Hls.
   destruct (default_filters e _) as [fl|]; [|reflexivity].
-  destruct (nodup_bytes _); [|reflexivity]. now rewrite (expand_closed e fl (HU fl)), Hok, Hq, Hc.
+  destruct (nodup_bytes _); [|reflexivity]. now rewrite (expand_closed e fl (HU fl)), (HT fl), Hok, Hq, Hc.
 Qed.
 
 (* the only conversion errors the expansion itself can cause are in the user's own fields: an
    object reference that names nothing, an optional/required clash, a path parameter that is
    not a request field; a reference made by entity.go is never the cause *)
 Theorem compile_errors : forall e cs, expand e = Ok cs -> list_settings e = false ->
-  convert e = if user_refs_ok e (defined cs) then
+  convert e = if user_refs_ok e (defined cs) && trees_ok e (defined cs) then
                 if fields_ok e then
                   if query_params_ok e && command_params_ok e then Ok cs
                   else Err "missing field in request"
@@ -513,7 +514,7 @@ Qed.
 Theorem convert_never_panics : forall e, is_panic (convert e) = false /\ convert e <> OutOfFuel.
 Proof.
   intros e. unfold convert. destruct (expand e) as [cs| | |] eqn:E.
-  - destruct (closed cs); [destruct (fields_ok e); [destruct (query_params_ok e && command_params_ok e);
+  - destruct (closed cs && trees_ok e (defined cs)); [destruct (fields_ok e); [destruct (query_params_ok e && command_params_ok e);
       [destruct (list_settings e)|]|]|]; split; try reflexivity; discriminate.
   - split; [reflexivity|discriminate].
   - pose proof (expand_total_aux e) as [Hp _]. rewrite E in Hp. discriminate.
@@ -524,7 +525,7 @@ Qed.
 Theorem convert_list_settings : forall e, list_settings e = true -> forall cs, convert e <> Ok cs.
 Proof.
   intros e Hls cs. unfold convert. rewrite Hls. destruct (expand e) as [c| | |]; try discriminate.
-  destruct (closed c); [destruct (fields_ok e); [destruct (query_params_ok e && command_params_ok e)|]|]; discriminate.
+  destruct (closed c && trees_ok e (defined c)); [destruct (fields_ok e); [destruct (query_params_ok e && command_params_ok e)|]|]; discriminate.
 Qed.
 
 (* ---- the main file holds exactly Keys, Data, State, EventType, Event -------------- *)
@@ -1169,9 +1170,7 @@ Lemma field_resolves_mono : forall D D' f,
 Proof.
   intros D D' f Hi H. unfold field_resolves in *. apply andb_true_iff in H. destruct H as [H1 H2].
   rewrite (ref_resolves_mono D D' _ Hi H1). cbn [andb]. destruct (f_inline f) as [il|]; [|reflexivity].
-  destruct (il_tree il) as [|t0 tl].
-  - apply forallb_forall. intros s Hs. rewrite forallb_forall in H2. exact (ref_resolves_mono D D' _ Hi (H2 s Hs)).
-  - apply forallb_forall. intros t Ht. rewrite forallb_forall in H2. exact (tfield_resolves_mono D D' Hi t (H2 t Ht)).
+  apply forallb_forall. intros s Hs. rewrite forallb_forall in H2. exact (ref_resolves_mono D D' _ Hi (H2 s Hs)).
 Qed.
 
 Lemma closed_app : forall a b, closed a = true -> closed b = true -> closed (a ++ b) = true.
@@ -1187,7 +1186,7 @@ Qed.
 Lemma compile_ok_inv : forall e cs, convert e = Ok cs -> expand e = Ok cs /\ closed cs = true.
 Proof.
   intros e cs H. unfold convert in H. destruct (expand e) as [c| | |] eqn:E; try discriminate.
-  destruct (closed c) eqn:Ec; [|discriminate]. destruct (fields_ok e); [|discriminate].
+  destruct (closed c) eqn:Ec; [|discriminate]. cbn [andb] in H. destruct (trees_ok e (defined c)); [|discriminate]. destruct (fields_ok e); [|discriminate].
   destruct (query_params_ok e && command_params_ok e); [|discriminate].
   destruct (list_settings e); [discriminate|]. inversion H; subst. auto.
 Qed.
